@@ -74,6 +74,7 @@ def enumerate_cases(tier):
         a, b, c3 = names[(7 * i) % len(names)], names[(13 * i + 5) % len(names)], names[(29 * i + 11) % len(names)]
         out.append({"k": "cross-world", "terms": [["", a, 2 - (i % 2) * 3], ["kilo" if i % 3 == 0 else "", b, -1], ["", c3, 1 + i % 2]]})
     out.append({"k": "after-define"})
+    out.append({"k": "stale-document"})
     return out
 
 
@@ -171,9 +172,10 @@ def run_case(case) -> core.Outcome:
     c = convgen.ctx()
     m = c.m
     jsonmod = c.w.load("json")
-    if isinstance(case, dict) and case.get("k") in ("prefix-triples", "cross-world", "after-define"):
+    if isinstance(case, dict) and case.get("k") in ("prefix-triples", "cross-world", "after-define", "stale-document"):
         try:
-            {"prefix-triples": _run_prefix_triples, "cross-world": _run_cross_world, "after-define": _run_after_define}[case["k"]](c, case, out)
+            {"prefix-triples": _run_prefix_triples, "cross-world": _run_cross_world, "after-define": _run_after_define,
+             "stale-document": _run_stale_document}[case["k"]](c, case, out)
         finally:
             convgen.ctx()  # the shared world is the active one again
         return out
@@ -425,6 +427,51 @@ def _run_after_define(c, case, out):
     out.sample = {"scenario": "round trips, Dimension.define, round trips again"}
 
 
+def _run_stale_document(c, case, out):
+    """a document written *before* an object received a further name/symbol and read afterwards:
+    decoding returns the singleton and must leave the names and symbols it has now"""
+    from ..world import World
+
+    w2 = World(["si", "us"])
+    m2 = w2.m
+    j2 = w2.load("json")
+    enc, dec = j2.MeasuredJSONEncoder, j2.MeasuredJSONDecoder
+    meter, foot = m2.Unit._by_name["meter"], m2.Unit._by_name["foot"]
+    compound = meter**2 / foot
+    dim = m2.Length**5 / m2.Time
+    pre = m2.Prefix(7, 3)
+    docs = {}
+    for label, obj in (("unit", meter), ("compound-unit", compound), ("dimension", dim), ("prefix", pre), ("quantity", m2.Quantity(3, foot))):
+        docs[label] = (obj, pickle.dumps(obj), json.dumps(obj, cls=enc))
+    meter.alias(name="vf15 metre", symbol="vf15m")
+    foot.alias(symbol="vf15ft")
+    m2.Unit.derive(compound, "vf15 compound", "vf15c")
+    m2.Dimension.derive(dim, "vf15 dim", "VFD")
+    m2.Prefix(7, 3, name="vf15 pre", symbol="vfp")
+    now = {"unit": _labels(meter, m2), "compound-unit": _labels(compound, m2), "dimension": _labels(dim, m2), "prefix": _labels(pre, m2), "quantity": _labels(foot, m2)}
+    for label, (obj, blob, text) in docs.items():
+        target = obj.unit if label == "quantity" else obj
+        for cname, fn in (("pickle", lambda: pickle.loads(blob)), ("json", lambda: json.loads(text, cls=dec)), ("deepcopy", lambda: copy.deepcopy(obj))):
+            try:
+                back = fn()
+            except Exception as e:  # noqa
+                out.fail(f"C15:stale-document:{label}:{cname}:raises:{type(e).__name__}", f"{cname} of an older document of {obj!r} raised {type(e).__name__}: {e}")
+                continue
+            got = back.unit if label == "quantity" else back
+            if got is not target:
+                out.fail(f"C15:stale-document:{label}:{cname}:identity", f"{cname} of an older document of {obj!r} returned another object")
+            if _labels(target, m2) != now[label]:
+                out.fail(f"C15:stale-document:{label}:{cname}:labels", f"reading a {cname} document written before {target!r} got further names/symbols changed them from {now[label]} to {_labels(target, m2)}")
+                # restore for the following codecs
+                if label in ("unit", "compound-unit", "quantity"):
+                    target.names, target.symbols = now[label]
+                else:
+                    target.name, target.symbol = now[label]
+    out.classes.append("stale-document:checked")
+    out.nontrivial = "stale-document"
+    out.sample = {"scenario": "encode, add a name/symbol, decode the older document"}
+
+
 def _equal_value(c, a, b):
     from fractions import Fraction
 
@@ -443,6 +490,6 @@ def still_fails(case, bucket):
 
 
 def vacuity(col):
-    need = ["prefix-triples:checked", "cross-world:checked", "after-define:checked", "unit:pickle5", "unit:json", "quantity:json", "quantity:composite", "dimension:json", "prefix:deepcopy"]
+    need = ["stale-document:checked", "prefix-triples:checked", "cross-world:checked", "after-define:checked", "unit:pickle5", "unit:json", "quantity:json", "quantity:composite", "dimension:json", "prefix:deepcopy"]
     missing = [k for k in need if not col.classes.get(k)]
     return missing or None
